@@ -246,6 +246,30 @@ fn grammar_packets(rng: &mut Rng) -> Vec<Vec<u8>> {
             }
         }
     }
+    // text that a "harmless" normalisation (trimming, line-break / separator clean-up, BOM removal) would touch: one and
+    // two decorations before, behind and around a core, in every string field - a normalisation that is not idempotent
+    // breaks decode(encode(decode(x))) == decode(x)
+    let deco = ["\n", "\r\n", "\r", " ", "\t", "/", "\\", ".", "\u{feff}", "\u{a0}", "\""];
+    for core in ["disk full", ""] {
+        for d1 in deco {
+            for d2 in deco {
+                for t in [format!("{core}{d1}{d2}"), format!("{d1}{d2}{core}"), format!("{d1}{core}{d2}"), format!("{core}{d1}{d2}{d1}")] {
+                    v.push(wire::enc_error(3, t.as_bytes()));
+                    v.push(wire::enc_request(wire::OP_RRQ, t.as_bytes(), b"octet", &[]));
+                    v.push(wire::enc_request(wire::OP_WRQ, b"f", t.as_bytes(), &[]));
+                    let mut p = wire::enc_request(wire::OP_RRQ, b"f", b"octet", &[]);
+                    p.extend_from_slice(t.as_bytes());
+                    p.extend_from_slice(b"\x001\0");
+                    v.push(p);
+                    let mut p = wire::OP_OACK.to_be_bytes().to_vec();
+                    p.extend_from_slice(b"unknown\0");
+                    p.extend_from_slice(t.as_bytes());
+                    p.push(0);
+                    v.push(p);
+                }
+            }
+        }
+    }
     for blk in [0u16, 1, 255, 256, 65535] {
         v.push(wire::enc_ack(blk));
         for len in [0usize, 1, 8, 512] {
